@@ -149,9 +149,9 @@ def run(ctx, res):
     from pico8 import tool
     from pico8.game import file as gfile
     from pico8.lua import lua as lua_mod
-    for i in range(ctx.budget(6, 60)):
-        src = gen_lua.layout(rng, gen_lua.LuaGen(rng).program(), 'lines', final_newline=True)
-        w = rng.choice([0, 1, 3, 4, 5, 8])
+    for i in range(ctx.budget(7, 63)):
+        src = gen_lua.layout(rng, gen_lua.LuaGen(rng).program(), 'lines', final_newline=True) + b'do\nwhile x do\ny=1\nend\nend\n'
+        w = [0, 1, 3, 4, 5, 8, 2][i % 7]      # every width in turn — 0 (no indentation at all) is a width like any other
         try:
             want = F.luafmt(src, w)
             g = U.make_game(code=src, version=8)
@@ -176,7 +176,7 @@ def run(ctx, res):
         gfile.to_file(g, p2)
         with U.quiet(), contextlib.redirect_stdout(io.StringIO()), contextlib.redirect_stderr(io.StringIO()):
             try:
-                tool.main(['-q', 'luafmt', '--indentwidth', str(w), p2])
+                tool.main(['-q', 'luafmt'] + (['--indentwidth', str(w)] if (w != 2 or i % 2) else []) + [p2])      # (2 is also the default)
             except Exception as e:
                 res.fail(key, 'p8tool luafmt --indentwidth %d raised %r' % (w, e), inp)
                 continue
